@@ -203,9 +203,25 @@ def run_case(case):
                                f"({None if got is None else len(got)} bytes)"
                                f", written {want.hex()[:60]} "
                                f"({len(want)} bytes); log {srv.log[-4:]}")
-    for name, seq in (("upload", srv.toggles_up),
-                      ("download", srv.toggles_down)):
-        pass    # a wrong toggle is answered with an abort -> seen above
+    # a segmented download ends with a segment that carries the "last" bit:
+    # a terminal commits the value only then (the model itself is tolerant)
+    open_dl = None
+    for entry in srv.log:
+        if entry[0] == "download":
+            if open_dl is not None and open_dl[1] is False:
+                break
+            open_dl = [entry[1], None]
+        elif entry[0] == "segment" and open_dl is not None:
+            open_dl[1] = bool(entry[2])
+        elif open_dl is not None and open_dl[1] is False:
+            break
+    if open_dl is not None and open_dl[1] is False \
+            and all(r[0] == "ok" for r in results):
+        i = open_dl[0] - 0x2000
+        if 0 <= i < len(case["ops"]):
+            return fail(i, "the last download segment was sent without the "
+                           "'last segment' bit: a terminal keeps the "
+                           f"download open; log {srv.log[-4:]}")
     if srv.errors:
         return fail(0, f"protocol errors seen by the terminal: "
                        f"{srv.errors[:3]}")
